@@ -35,7 +35,7 @@ Definition blacklist_call_name (c : ctx) : res pyval :=
           | Some (S _) => do args <- call_args c;; Ok (hd PNone args)
           | _ => do kws <- call_keywords c;;
                  match kws with
-                 | Some l => match kw_lookup (s2p "name") l with Some v => Ok v | None => Raise KeyError end
+                 | Some l => match kw_lookup (s2p "name") l with Some v => Ok v | None => Ok PNone end   (* .get("name") *)
                  | None => Raise TypeError
                  end
           end
